@@ -37,10 +37,9 @@ def run(tier, seed):
         elif a.ok:
             pairs.append((a, b))
             cpairs.append((a, twins_ast[i]))
-    reports, st, cases = equiv.explore(pairs, slack=False, maxlen=9 if quick else 13, budget=40000 if quick else 600000, timeout=400 if quick else 3000)
+    reports, st, cases = equiv.explore(pairs, slack=False, maxlen=9 if quick else 13, budget=40000 if quick else 600000, timeout=1600 if quick else 9000)
     for e in st['errors']:
-        if 'timeout' not in str(e):
-            chk.machinery_error('TLC(Equiv): ' + str(e)[:1500])
+        chk.machinery_error('TLC(Equiv): ' + str(e)[:1500])
     kinds = collections.Counter()
     for (a, b), reps in zip(pairs, reports):
         for r in reps:
@@ -50,7 +49,7 @@ def run(tier, seed):
             r = min(v, key=lambda x: len(x['hist']))
             chk.violation('macro version and inlined version differ on input %s: status %s vs %s, events %s vs %s' % (r['hist'], r.get('ares'), r.get('bres'), json.dumps(r.get('aev'))[:200], json.dumps(r.get('bev'))[:200]),
                           {'macro_source': a.src, 'inlined_source': b.src, 'args': a.args, 'history': r['hist'], 'report': r})
-    st2, kinds2, cases2 = c01.run_conform(chk, cpairs[:(12 if quick else 200)], 8 if quick else 12, 300 if quick else 3000, 'macro')
+    st2, kinds2, cases2 = c01.run_conform(chk, cpairs[:(12 if quick else 200)], 8 if quick else 12, 1600 if quick else 9000, 'macro')
     # ill-formed calls must be diagnosed
     bad_items = []
     for i in range(12 if quick else 100):
